@@ -45,8 +45,8 @@ CHECKS = {
         'Generated grammars with typed rules (unique class names per case, consistent base chains, builtin types, dict-attribute-colliding element names, typed rules inside closures/optionals/named lists) x derived inputs: class name, declared bases, attributes == named elements (or ast == value), builtin conversion; children()/parent agree with an independent attribute walk; DepthFirst/BreadthFirst/PostOrder walkers reach every node; generated-module classes give the same tree. Exploration.',
         'the plain-AST parse (through a marking semantics) is the reference for values; declared-but-unset fields of generated classes may be None', 'DESIGN.md §3 C07'),
     'C08': (
-        'property-based testing / fuzzing with a validity oracle: Hypothesis unicode texts and mutated seed sentences against ~25 fixed and generated grammars (str, Buffer, generated parser, parseinfo on/off); mutated grammar texts as compile input; exception-type, position/line-info and rendering predicates; 10 s hang watchdog',
-        'Generated texts (weighted alphabet incl. control, non-BMP, unicode digits; mutations and truncations of valid sentences) x grammars built around @int/@uint/@float/@bool/@name, $->, keywords, left recursion, cuts, directives; valid grammar texts with 1-4 syntax-biased edits given to tatsu.compile. Every call returns or raises a tatsu.exceptions type; FailedParse: 0<=pos<=len, info agrees with my splitter, str()/render() return; no RecursionError, no hang. Exploration; failures bucketed by (type, innermost tatsu frame).',
+        'property-based testing and coverage-guided fuzzing (atheris/libFuzzer) with a validity oracle: Hypothesis unicode texts and mutated seed sentences against ~25 fixed and generated grammars (str, Buffer, generated parser, parseinfo on/off); mutated grammar texts as compile input; exception-type, position/line-info and rendering predicates; 10 s hang watchdog',
+        'Generated texts (weighted alphabet incl. control, non-BMP, unicode digits; mutations and truncations of valid sentences) x grammars built around @int/@uint/@float/@bool/@name, $->, keywords, left recursion, cuts, directives; valid grammar texts with 1-4 syntax-biased edits given to tatsu.compile. Every call returns or raises a tatsu.exceptions type; FailedParse: 0<=pos<=len, info agrees with my splitter, str()/render() return; no RecursionError, no hang. An atheris campaign (quick: 4 000 executions, thorough: 4 campaigns, seeded and empty corpora) drives the same oracle with coverage feedback. Exploration; failures bucketed by (type, innermost tatsu frame).',
         'texts containing line separators other than LF/CR/CRLF are not line-checked; hang = 10 s on <= 60 characters (20 s for compile)', 'DESIGN.md §3 C08'),
     'C09': (
         'property-based testing: metamorphic relation over whitespace/comment layouts + reference oracle RefPEG under the effective configuration + layering differential (compile-time < directive < parse-time)',
